@@ -22,7 +22,7 @@ def main():
     only = sys.argv[1:]
     props = ["C%02d" % i for i in range(1, 21)]
     mods = {p: importlib.import_module("wxlint.rules." + p.lower()) for p in props}
-    d = os.path.join(HERE, "equiv")
+    d = os.environ.get("WXV_EQUIV_DIR") or os.path.join(HERE, "equiv")
     bad = 0
     for fn in sorted(os.listdir(d)):
         if not fn.endswith(".patch") or (only and not any(o in fn for o in only)):
